@@ -205,8 +205,34 @@ def run(chk):
     okr = [r for r in rets if fsp.norm(r.value) in ("self._op_mode_support & OperationMode.SUPPORTED[mode] == OperationMode.SUPPORTED[mode]",
                                                     "OperationMode.SUPPORTED[mode] == self._op_mode_support & OperationMode.SUPPORTED[mode]","OperationMode.SUPPORTED[mode] & self._op_mode_support == OperationMode.SUPPORTED[mode]",
                                                     "OperationMode.SUPPORTED[mode] == OperationMode.SUPPORTED[mode] & self._op_mode_support")]
-    chk.check(len(rets) == 1 and len(okr) == 1, "R4", f"{P}:BaseNode402.is_op_mode_supported | test", sp.loc(),
-              f"support test is {[fsp.norm(r.value) for r in rets]}; expected `support & bits == bits`")
+    # decided by evaluation where possible: the returned expression with the drive's mask and the mode's bits bound, for every mode of
+    # the table (NO MODE has bits 0: always supported) against masks with that bit set / cleared / all / none
+    from .common import substitute_src as _subst
+    decided = None
+    if len(rets) == 1 and sup:
+        wrong = None
+        for name_, bits_ in sorted(sup.items(), key=lambda kv: str(kv[0])):
+            if type(bits_) is not int:
+                continue
+            for mask_ in (0, bits_, 0xFFFFFFFF, 0xFFFFFFFF & ~bits_, bits_ | 0x5, 0x3FF):
+                e_ = _subst(fsp.norm_ast(rets[0].value), {"self._op_mode_support": mask_, "OperationMode.SUPPORTED[mode]": bits_})
+                v_ = folder.try_fold(e_, Scope(mod), "?")
+                if v_ == "?":
+                    wrong = "?"
+                    break
+                if bool(v_) != (mask_ & bits_ == bits_):
+                    wrong = wrong or f"mode {name_!r} (bits {bits_:#x}) with the drive advertising {mask_:#x}: the test gives {bool(v_)}, object 0x6502 says {mask_ & bits_ == bits_}"
+            if wrong == "?":
+                break
+        if wrong != "?":
+            decided = wrong or True
+    if decided is True:
+        chk.ok("R4", f"{P}:BaseNode402.is_op_mode_supported | test", sp.loc(), f"evaluated for {len(sup)} modes x 6 masks")
+    elif decided:
+        chk.bad("R4", f"{P}:BaseNode402.is_op_mode_supported | test", sp.loc(), decided)
+    else:
+        chk.check(len(rets) == 1 and len(okr) == 1, "R4", f"{P}:BaseNode402.is_op_mode_supported | test", sp.loc(),
+                  f"support test is {[fsp.norm(r.value) for r in rets]}; expected `support & bits == bits`")
     src_idx = {folder.try_fold(n.slice, Scope(mod), None) for n in own_nodes(sp.node) if isinstance(n, ast.Subscript)} - {None}
     chk.check(0x6502 in src_idx, "R4", f"{P}:BaseNode402.is_op_mode_supported | object 0x6502", sp.loc(), f"supported modes read from {sorted(src_idx)}")
 
